@@ -40,7 +40,7 @@ PROPS = {
     "C05": dict(streams=[("C05", 1.0)], model=["M:runs", "M:druns"], quick=12000, thorough=600000),
     "C06": dict(streams=[("C06", 1.0)], model=["M:ro"], quick=20000, thorough=3000000),
     "C07": dict(streams=[("C07", 0.9), ("STAGE", 0.1)], model=["M:panic", "M:nohooks"], quick=4000, thorough=300000),
-    "C08": dict(streams=[("C08", 1.0)], model=["M:classes", "M:levels", "M:rl", "M:rpc"], quick=16000, thorough=2500000),
+    "C08": dict(streams=[("C08", 0.85), ("C12", 0.15)], model=["M:classes", "M:levels", "M:rl", "M:rpc"], quick=16000, thorough=2500000),
     "C09": dict(streams=[("C09", 0.7), ("C01", 0.3)], model=["M:classes", "M:levels", "M:paras"], quick=14000, thorough=3000000),
     "C10": dict(streams=[("C10", 0.7), ("C02", 0.3)], model=["M:classes", "M:levels", "M:paras"], quick=10000, thorough=2000000),
     "C11": dict(streams=[("C11", 0.8), ("STAGE", 0.2)],
